@@ -205,4 +205,15 @@ CHECKS = {
         assumptions=COMMON_ASSUME + SIM_ASSUME + ["schedules are controlled at hook/I-O granularity; a released goroutine that reaches no point within 3ms is treated as blocked on a lock for scheduling purposes only (never as a verdict)", "single log writer at a time (documented contract)", "a panic on a goroutine the harness does not own (the rotation goroutine) kills the test binary; the driver then reports the log as the replay"],
         jobs=[dict(pkg="sched", run="TestC14Close", checks_quick=60, checks_thorough=1500, shards_quick=12, shards_thorough=16, shrinktime="30s", timeout_quick=600, timeout_thorough=3000)],
     ),
+    "C06": dict(
+        level="exploration",
+        technique="harness-owned schedule exploration (rapid-generated schedules over hook points and SimFS I/O gates) plus free-running stress under the Go race detector; oracle = interval linearizability against the single writer's version log (a read must match some log state possibly current between its invocation and return; an append is visible no earlier than its fsync)",
+        rule="one writer script (appends with rotation on small segments, head truncation, tail truncation followed by re-append of different content at the same indexes, delete-everything followed by a restart at another index) and 1-8 reader scripts (GetLog around the moving first/last/middle, FirstIndex, LastIndex). Controlled mode: every goroutine parks at the build-tag hook points and at SimFS WriteAt/SyncFile/CommitState/Create/ReadAt/Unlink and a generated choice list releases one at a time. Free mode: no parking, built with -race. A logical clock stamps invocation/return of every read and start/fsync/return of every writer step; each read is judged against the versions whose possibly-current interval intersects its own: value equal to that version's answer, ErrLogNotFound only if absent in one of them, any other error only if the index was present in an earlier and absent in a later version of the interval; returned entries must equal a generation byte for byte. Non-trivial = a case in which at least one read's interval overlaps a version change; distinct = FNV-64 of the case",
+        expect_classes=["read-overlaps-version-change", "overlap:append", "overlap:delhead", "overlap:deltail", "overlap:delall"],
+        assumptions=COMMON_ASSUME + SIM_ASSUME + ["schedules are explored at hook and I/O granularity, not instruction granularity; the race detector only sees executed interleavings", "version intervals are conservative (they only over-approximate what is legal), so the check cannot raise a false alarm but may miss a violation that needs sub-operation precision"],
+        jobs=[
+            dict(pkg="sched", run="TestC06Controlled", checks_quick=150, checks_thorough=3000, shards_quick=12, shards_thorough=16, shrinktime="30s", timeout_quick=600, timeout_thorough=3000),
+            dict(pkg="sched", run="TestC06Free", race=True, checks_quick=8, checks_thorough=150, shards_quick=4, shards_thorough=8, shrinktime="30s", timeout_quick=900, timeout_thorough=3000, env=dict(GOMAXPROCS="4")),
+        ],
+    ),
 }
